@@ -14,6 +14,7 @@ Helper lemmas live in Proofs/Fit.lean.
 import Model.Fit
 import Model.Slim
 import Proofs.Fit
+import Mathlib.Algebra.Order.Field.Rat
 
 open Model Model.Impl.Fit Model.FitProofs
 
@@ -386,6 +387,22 @@ example :
     fitResidualMap f = [4, 5, 12, -6] ∧ fitChiSquaredMap f = [4, 25, 9, 9] ∧ fitChiSquared f = 47
     ∧ fitReducedChiSquared f = 11 := by
   decide
+
+/-- the hypotheses of (b3) and (d3)/(d4) are satisfiable over a field: instances at `ℚ`
+    (a 1×3 mask with a junk value in the masked cell; the 2+1+1 object list below). -/
+example :=
+  b_masked_native_eq_slim (α := ℚ) (fun x => x) 6 ⟨1, 3, [false, true, false]⟩ rfl true
+    [5, 1000, 3] [1, -7, 2] [0, 99, 1] (1 / 2) rfl rfl rfl
+
+example :=
+  d_reduced_matrices (α := ℚ) (fun _ => 0)
+    [{ params := 2, reg := some [[2, -1], [-1, 2]] }, { params := 1, reg := none },
+     { params := 1, reg := some [[3]] }]
+    (by intro o ho m hm
+        simp only [List.mem_cons, List.not_mem_nil, or_false] at ho
+        rcases ho with rfl | rfl | rfl <;> simp at hm <;> subst hm <;> simp)
+    [[5, 1, 0, 0], [1, 5, 1, 0], [0, 1, 4, 1], [0, 0, 1, 6]] [1, 2, 10, 3]
+    rfl (by intro r hr; simp at hr; rcases hr with rfl | rfl | rfl | rfl <;> rfl) rfl rfl rfl
 
 /-- a partially regularized list (2 regularized parameters, then 1 unregularized, then 1 regularized):
     index list, block-diagonal `H`, reduced matrices and the regularization term. -/
